@@ -136,7 +136,7 @@ func init() {
 			"non-trivial = pair with two non-nil items or a sort of >=5 items",
 		Assumptions: []string{"sort.Slice is correct for a strict weak order", "reading D9 of DESIGN.md: domain = object struct types and nil"},
 		Bound: func(string) string {
-			return "complete: all pairs, all triples, 2520+720 permutation sorts (same in both tiers)"
+			return "complete: all pairs, all triples, 2520+720 permutation sorts (same in both tiers); families added after round 5: DESIGN.md 8.11"
 		},
 		Shards: 8,
 		Run:    c17Run,
